@@ -159,24 +159,51 @@ def check(cond: bool, clause: str, case: Any, detail: Any = None) -> None:
 # Hypothesis driver
 
 
+SHRINK_BUDGET_S = {False: float(os.environ.get('VERIF_SHRINK_QUICK_S', '12')), True: float(os.environ.get('VERIF_SHRINK_THOROUGH_S', '240'))}
+
+
+class _Budget:
+    """Time-bounded shrinking.  Hypothesis' shrinker has no time limit of its own below its hard 5-minute cap, so once the
+    first failure has been seen and the budget is used up, every further call returns at once as if it had passed: the
+    shrinker then finds no more improvements and stops within milliseconds.  The wall clock decides only how far a
+    failure is minimised, never whether a run passes: the smallest failing case seen so far is what gets reported."""
+
+    def __init__(self, seconds):
+        import time
+        self.time = time.time
+        self.seconds = seconds
+        self.t_first = None
+        self.last = None
+
+    def run(self, fn, *a, **kw):
+        if self.t_first is not None and self.time() - self.t_first > self.seconds:
+            return None
+        try:
+            return fn(*a, **kw)
+        except Violation as v:
+            if self.t_first is None:
+                self.t_first = self.time()
+            self.last = v
+            raise
+
+
 def run_hypothesis(test_fn: Callable, strategies: Dict[str, Any], seed: int,
                    max_examples: int, shrink: bool, examples: Optional[List[dict]] = None,
                    ) -> Optional[Violation]:
-    """Run test_fn(**drawn) over generated cases; return the (shrunk) Violation or None.
-    A pure function of (code, seed, max_examples, shrink)."""
+    """Run test_fn(**drawn) over generated cases; return the shrunk Violation or None.  Pass/fail is a pure function of
+    (code, seed, max_examples); `shrink` selects the shrinking budget (quick: seconds, thorough: minutes)."""
     import hypothesis
     from hypothesis import HealthCheck, Phase, Verbosity, given, settings
 
-    phases = [Phase.explicit, Phase.generate]
-    if shrink:
-        phases.append(Phase.shrink)
+    phases = [Phase.explicit, Phase.generate, Phase.shrink]
     st = settings(max_examples=max_examples, database=None, deadline=None,
                   report_multiple_bugs=False, phases=phases,
                   suppress_health_check=list(HealthCheck), verbosity=Verbosity.quiet,
                   print_blob=False)
+    budget = _Budget(SHRINK_BUDGET_S[bool(shrink)])
 
     def body(**kw):
-        test_fn(**kw)
+        budget.run(test_fn, **kw)
 
     t = given(**strategies)(body)
     for ex in (examples or []):
@@ -187,6 +214,10 @@ def run_hypothesis(test_fn: Callable, strategies: Dict[str, Any], seed: int,
         t()
     except Violation as v:
         return v
+    except Exception:
+        if budget.last is not None:      # Hypothesis reports "flaky" when the budget cut the shrink short
+            return budget.last
+        raise
     return None
 
 
